@@ -24,7 +24,7 @@ M1_INV = ['ParserOK', 'FamilySound', 'RejectBeforeWrite', 'AcceptWritesAll', 'Ge
 def key_of(rec):
     return '-mp %s -numinst %s %s [%s]' % (rec['mp'], rec['numinst'],
                                            ' '.join('%s=%s%s' % (o, rec['v'][o], {1: '+hair', -1: '-hair'}.get((rec.get('eps') or {}).get(o, 0), ''))
-                                                    for o in sorted(rec['given'])), '/'.join(rec['pert']))
+                                                    for o in sorted(rec['given'])), '/'.join(rec['pert'])) + (' long option names' if rec.get('spell') == 'long' else '')
 
 
 def replay_args(tag, rec):
@@ -63,7 +63,7 @@ def count_sets(maxn, counts=None):
 def m1_generate(rep, tier):
     """exhaustive run of the generator machine over all draws (tiny counts)"""
     res = tlc.run('MC_Gen', dict(MaxN=2, N1s={1, 2}, N2s={1, 2}, N3s={1, 2}, NumInsts={1} if tier == 'quick' else {1, 2}, Perturb=False, Generate=True,
-                                 TypesUsed={'ha', 'sm', 'hr', 'spa'}, Rich=False),
+                                 TypesUsed={'ha', 'sm', 'hr', 'spa'}, Rich=False, Spells={'short'}),
                   spec='MSpec', invariants=M1_INV, label='MPGen machine over every random draw (counts <= 2)', timeout=3000)
     tlc.require_ok(res, rep.pid)
     rep.add_tlc(tlc.stats_of(res))
@@ -71,7 +71,7 @@ def m1_generate(rep, tier):
 
 
 def collect(rep, pool, tier, seed, perturb, nseeds, maxn=2, rich=False, sim=None, label='', counts=None, types=None,
-            only_twosided=False, numinsts=None, every=1):
+            only_twosided=False, numinsts=None, every=1, spells=None):
     """Runs MC_Gen, replays vectors, returns list of traces of accepted runs."""
     traces = []
     seen = set()
@@ -98,6 +98,7 @@ def collect(rep, pool, tier, seed, perturb, nseeds, maxn=2, rich=False, sim=None
     res = engine.tlc_replay(rep, pool, 'MC_Gen', replay_args,
                             consts=dict(MaxN=maxn, NumInsts=numinsts or {1, 2}, Perturb=perturb, Generate=False,
                                         TypesUsed=types or {'ha', 'sm', 'hr', 'spa'}, Rich=rich,
+                                        Spells=spells or ({'short', 'long'} if perturb else {'short'}),
                                         **count_sets(maxn, counts)),
                             spec='MSpec', invariants=['ParserOK', 'FamilySound', 'RejectBeforeWrite', 'ExportArgs'],
                             label=label, on_result=on_result, export_filter=flt, timeout=3000)
